@@ -109,7 +109,9 @@ def tensor_close(dC, d1, d2):
 # ------------------------------------------------------------------------------ the check
 
 def run(ctx):
-    ctx.trusted += ['the closed form a!b!c!/(a+b+c+d)! (Dirichlet) for the integral of a monomial over the unit d-simplex '
+    ctx.trusted += ['thorough tier: coqchk re-checks all modules except the generated Gen.C08_Chk_* (pure VM computations, which the '
+                    'independent checker can only replay by lazy reduction); those are checked by the coqc kernel only',
+                    'the closed form a!b!c!/(a+b+c+d)! (Dirichlet) for the integral of a monomial over the unit d-simplex '
                     'and Fubini for product cells are taken as the definition of the exact integral (Model.C08_Rules.exactQ)',
                     'Python Fraction(float) / float.hex as the exact value of a binary64 (dump of the rules)',
                     'numpy.polynomial.legendre.leggauss is executed, not modelled: segment rules are verified for the '
@@ -212,6 +214,7 @@ def run(ctx):
         if ok:
             _correspond(ctx, dumps, ints, audits, status, files['module_of'])
         _oracle_extra(ctx, dumps)
+    _patch_coqchk(ctx, ['Gen.' + os.path.basename(r)[:-2] for r in files['checks']])
     with ThreadPoolExecutor(1) as ex:
         fut = ex.submit(side)
         ok2 = ok
@@ -223,6 +226,37 @@ def run(ctx):
             ctx.compile_dyn(['gen/C08_All.v'], timeout=600)
         ctx.prove()
         fut.result()
+
+
+def _patch_coqchk(ctx, admitted):
+    """thorough tier: the independent checker has no VM; the generated per-rule modules consist of nothing but
+    ``check = true`` computations closed by the kernel's VM conversion (minutes of VM time = hours of lazy reduction), so
+    they are passed to coqchk as -admit; everything else (data literals, soundness proofs, assembly, property file) is
+    re-checked"""
+    import re
+    import subprocess
+    import time
+    import types
+
+    def coqchk(self, timeout=1500):
+        adm = []
+        for m in admitted:
+            adm += ['-admit', m]
+        cmd = ['timeout', str(timeout), 'coqchk', '-silent', '-o'] + self.coq_args() + adm + [f'Chk.{self.pid}']
+        t = time.time()
+        r = subprocess.run(cmd, cwd=self.bdir, capture_output=True, text=True)
+        out = r.stdout + r.stderr
+        summ = out[out.find('CONTEXT SUMMARY'):] if 'CONTEXT SUMMARY' in out else out[-1500:]
+        summ = re.sub(r'\s+', ' ', summ)
+        self.extra['coqchk'] = {'exit': r.returncode, 'seconds': round(time.time() - t, 1), 'summary': summ[:3000],
+                                'admitted_modules (pure VM computations, checked by coqc only)': admitted}
+        self.checker_cmds.append('coqchk -silent -o <same -Q> ' + ' '.join('-admit ' + m for m in admitted[:3]) + f' ... Chk.{self.pid}')
+        self.log(f'coqchk: exit {r.returncode} ({time.time() - t:.0f}s) {summ[:200]}')
+        bad = r.returncode != 0 or re.search(r'type-in-type: (?!<none>)|unsafe \(co\)fixpoints: (?!<none>)|positivity is assumed: (?!<none>)', summ)
+        if bad:
+            self.broken.append({'kind': 'proof', 'name': 'coqchk', 'detail': out[-2000:]})
+        return not bad
+    ctx.coqchk = types.MethodType(coqchk, ctx)
 
 
 def _alias_fail(ctx, d):
